@@ -77,9 +77,12 @@ func (s *InMemoryKindMapper) MapKinds(ctx context.Context, kinds graph.Kinds) ([
 }
 
 func (s *InMemoryKindMapper) AssertKinds(ctx context.Context, kinds graph.Kinds) ([]int16, error) {
-	ids, missing := s.mapKinds(kinds)
+	// Return the IDs in the order the kinds were given, whether or not a kind had to be defined first. Appending
+	// newly defined kinds after the known ones made the first call for a mixed list answer in a different order than
+	// every later call for the same list.
+	ids := make([]int16, 0, len(kinds))
 
-	for _, kind := range missing {
+	for _, kind := range kinds {
 		ids = append(ids, s.Put(kind))
 	}
 
